@@ -32,8 +32,10 @@
 //	c14-close-once      close callback more than once, not last, or missing after the connection ended
 //	c14-frames-whole    the conn's byte stream is not a concatenation of whole per-call frame groups
 //	c14-lost-dup        a call that returned nil is missing from / twice on the wire of a quiescent, live connection
+//	c05-fifo            (for C05) handlers of one connection's frames (control frames included) ran out of wire order
 //	c05-overlap         (for C05, `gen -tier c05`) a websocket message/close callback ran while the HTTP handler that
 //	                    upgraded the same connection was still running — poller-driven and blocking-parser paths
+//	                    or two callbacks of one connection (open / message / ping / pong / close handlers) ran at once
 package main
 
 import (
@@ -77,6 +79,13 @@ func gen(g *lp.Gen) {
 			g.P("C %d e2e path=%s queued=0 mode=%s", i, path, []string{"lt", "et", "etos"}[i%3])
 			g.P("O run msgs=%d writers=%d size=%d", g.PickInt(1, 3, 8), g.PickInt(1, 2), g.PickInt(10, 70000))
 		}
+		// ... and the per-connection queue seen from the websocket callbacks (seed C05-g): poller-driven gated
+		// callback cases in which control frames (user-set ping / pong handlers) arrive while the handler of an
+		// earlier frame of the same connection is still held; every callback is a job of the conn's queue: one at
+		// a time (c05-overlap) and in wire order (c05-fifo)
+		for i := 0; i < 4*g.N; i++ {
+			genCBCtl(g, 100+i)
+		}
 		return
 	}
 	for i := 0; i < g.N; i++ {
@@ -91,6 +100,43 @@ func gen(g *lp.Gen) {
 			genWD(g, i)
 		}
 	}
+}
+
+// genCBCtl: a `cb` case (same ops and executor as genCB) made of bursts of data and control frames that are fed while
+// earlier handlers are still held at the gate, then released one by one.
+func genCBCtl(g *lp.Gen, id int) {
+	g.P("C %d cb", id)
+	g.P("O upgrade")
+	if g.Chance(1, 2) {
+		g.P("O cb") // open has run before the first frame arrives (else the frames queue up behind the held open)
+	}
+	frames := 0
+	bursts := 1 + g.Intn(3)
+	for b := 0; b < bursts; b++ {
+		k := 2 + g.Intn(4)
+		ctl := g.Intn(k) // at least one control frame per burst
+		for j := 0; j < k; j++ {
+			op := g.Pick("recv", "recv", "ping", "pong")
+			if j == ctl {
+				op = g.Pick("ping", "pong")
+			}
+			g.P("O %s", op)
+			frames++
+			if g.Chance(1, 4) {
+				g.P("O cb")
+			}
+		}
+		for j := g.Intn(k + 1); j > 0; j-- {
+			g.P("O cb")
+		}
+	}
+	if g.Chance(1, 3) {
+		g.P("O flip")
+	}
+	for j := 0; j < frames+3; j++ {
+		g.P("O cb")
+	}
+	g.P("Q")
 }
 
 func genCB(g *lp.Gen, id int) {
@@ -1005,6 +1051,8 @@ func checkLog(e *lp.Exec, l *cbLog, connEnded bool, what string) {
 	defer l.mu.Unlock()
 	if l.overlap {
 		e.Oracle("c14-callback-order", "%s: a callback started while another one was still running (%s); log %v", what, l.overlapWhat, l.done)
+		// the same fact is C05's "callbacks of one connection never overlap" (every callback is a job of the conn's queue)
+		e.Oracle("c05-overlap", "%s: two callbacks of one connection ran at the same time (%s); log %v", what, l.overlapWhat, l.done)
 	}
 	next := 0
 	for i, n := range l.done {
@@ -1022,6 +1070,8 @@ func checkLog(e *lp.Exec, l *cbLog, connEnded bool, what string) {
 			k := atoi(n[1:])
 			if k != next {
 				e.Oracle("c14-callback-order", "%s: the handler of frame %s ran where frame %d was due (callbacks must follow the wire order, control frames included); log %v", what, n, next, l.done)
+				// C05: the frames' handlers are submitted to the conn's queue in wire order, so they must run in that order
+				e.Oracle("c05-fifo", "%s: the handler of frame %s ran where frame %d was due (jobs of one connection run in submission = wire order, control frames included); log %v", what, n, next, l.done)
 			}
 			next = k + 1
 			if i == 0 {
@@ -1083,12 +1133,19 @@ func runCB(e *lp.Exec, head string, ops []string) {
 	epfd := eng.VerifEpfd(0)
 	e.P("> %s", head)
 	e.P("ok")
+	// pollerStuck: the poller goroutine did not come back to epoll_wait within 3 s of an injected read event — it is
+	// blocked inside a held callback, i.e. a callback runs on the I/O goroutine instead of through the executor. The
+	// case is already lost (the oracles / the correspondence report it); the remaining ops are not executed, each of
+	// them would only wait for the same time-outs again.
+	pollerStuck := false
 	feed := func(b []byte) {
-		if nbc.VerifState().Closed {
+		if nbc.VerifState().Closed || pollerStuck {
 			return
 		}
 		v.Push(b)
-		vsys.InjectTimeout(epfd, []syscall.EpollEvent{{Fd: int32(fd), Events: syscall.EPOLLIN}}, 3*time.Second)
+		if !vsys.InjectTimeout(epfd, []syscall.EpollEvent{{Fd: int32(fd), Events: syscall.EPOLLIN}}, 3*time.Second) {
+			pollerStuck = true
+		}
 	}
 	settle := func() {
 		// stable when a callback is held at the gate, or the job queue is empty
@@ -1113,6 +1170,11 @@ func runCB(e *lp.Exec, head string, ops []string) {
 	shape := "cb"
 	for _, ln := range ops {
 		ow := strings.Fields(ln)
+		if pollerStuck {
+			e.P("> %s", ln)
+			e.P("%s", l.line())
+			continue
+		}
 		switch {
 		case ow[0] == "Q":
 		case ow[1] == "upgrade":
